@@ -403,7 +403,7 @@ func streamCompact(c *Ctx) {
 		if sizeOf(T) >= 2 {
 			c.nontrivial(desc)
 		}
-		if (T == 474 || (T > 474 && (T-474)%478 == 0)) {
+		if T == 474 || (T > 474 && (T-474)%478 == 0) {
 			c.dist("exact-fill")
 		}
 	}
